@@ -514,6 +514,25 @@ class _ScipyStats(object):
         return (sym.fn_atom("kendalltau", (a, b)), None)
 
 
+class _Norm(object):
+    """scipy.stats.norm: the quantile function is uninterpreted (strictly increasing: instances added per pair)"""
+    def __getattr__(self, name):
+        import scipy.stats as _st
+        return getattr(_st.norm, name)
+
+    @staticmethod
+    def ppf(q, *a, **k):
+        import scipy.stats as _st
+        if not is_sym(q):
+            return _st.norm.ppf(q, *a, **k)
+        use("scipy.stats.norm.ppf")
+        q = SNum.lift(q)
+        return SNum(FIN, sym._app("ppf", q.rv()))
+
+
+_ScipyStats.norm = _Norm()
+
+
 class _ScipyShim(object):
     stats = _ScipyStats()
 
